@@ -3,7 +3,7 @@
 /verif/seeded/<Cxx>-r<round>-<n>/ (patch.diff, demo/, meta.json) with what was run and what the checks reported."""
 import json, os, shutil, sys, glob
 rd, pid, n = sys.argv[1], sys.argv[2], sys.argv[3]
-rnd = "2" if rd.rstrip("/").endswith("seed2") else "1"
+rnd = "3" if rd.rstrip("/").endswith("seed3") else ("2" if rd.rstrip("/").endswith("seed2") else "1")
 src = f"{rd}/{pid}/out"
 dst = f"/verif/seeded/{pid}-r{rnd}-{n}"
 os.makedirs(dst, exist_ok=True)
@@ -19,6 +19,7 @@ if os.path.exists(mf):
     except Exception: meta = {"raw": open(mf).read()[:2000]}
 out = {"property": pid, "round": int(rnd), "change": int(n),
        "summary": meta.get("summary"), "needs": meta.get("needs"),
+       "observable_difference": meta.get("observable_difference"), "why_property_still_holds": meta.get("why_property_still_holds"),
        "seeder_reported": {k: meta.get(k) for k in ("suite", "demo_with_change", "demo_without_change") if k in meta},
        "confirmed_by_coordinator": {}, "checks": {}}
 for f in sorted(glob.glob(f"{rd}/confirm_{pid}_{n}.json") + glob.glob(f"{rd}/check_{pid}_{n}.json") + glob.glob(f"{rd}/recheck*_{pid}_{n}.json")):
